@@ -926,6 +926,12 @@ func (r *Reader) Markdown() (string, error) {
 
 // MarkdownWithOptions returns HTML content as Markdown with options.
 func (r *Reader) MarkdownWithOptions(opts ExtractOptions) (string, error) {
+	return r.markdownWithHeadingLevels(opts, func(level int) int { return level })
+}
+
+// markdownWithHeadingLevels renders the content as Markdown; headingLevel maps
+// the level of an <hN> element to the level of the ATX heading written for it.
+func (r *Reader) markdownWithHeadingLevels(opts ExtractOptions, headingLevel func(int) int) (string, error) {
 	var result strings.Builder
 
 	elements := r.getElements(opts.NavigationExclusion)
@@ -935,7 +941,7 @@ func (r *Reader) MarkdownWithOptions(opts ExtractOptions) (string, error) {
 			if result.Len() > 0 {
 				result.WriteString("\n\n")
 			}
-			for i := 0; i < elem.Level; i++ {
+			for i := 0; i < headingLevel(elem.Level); i++ {
 				result.WriteString("#")
 			}
 			result.WriteString(" ")
@@ -1041,8 +1047,21 @@ func (r *Reader) MarkdownWithRAGOptions(extractOpts ExtractOptions, mdOpts rag.M
 		}
 	}
 
-	// Generate main content
-	md, err := r.MarkdownWithOptions(extractOpts)
+	// Generate main content, applying HeadingLevelOffset and MaxHeadingLevel
+	// like the other formats do (never below 1, never above 6)
+	md, err := r.markdownWithHeadingLevels(extractOpts, func(level int) int {
+		level += mdOpts.HeadingLevelOffset
+		if level < 1 {
+			level = 1
+		}
+		if mdOpts.MaxHeadingLevel > 0 && level > mdOpts.MaxHeadingLevel {
+			level = mdOpts.MaxHeadingLevel
+		}
+		if level > 6 {
+			level = 6
+		}
+		return level
+	})
 	if err != nil {
 		return "", err
 	}
